@@ -1,1 +1,544 @@
-fn main() {}
+//! h-genesis — action interpreter for C39 / C40 (specs/Genesis.tla).
+//!
+//! Executes, on the real fuel-core objects,
+//!   Export    : build a source node state, run the real `Exporter::write_full_snapshot` into real
+//!               snapshot files (JSON or parquet) and open them with the real `SnapshotReader`
+//!   Reference : an uninterrupted `execute_genesis_block` + genesis block commit on fresh databases
+//!   Run       : `execute_genesis_block` on the walk's databases, with at most one interruption
+//!               injected through the `verif` hook of `ImportTask::run` on the import thread
+//!   CommitBlock / DropResult : commit (or lose) the returned genesis block
+//!   ClearOffChain : `clear_off_chain_genesis_progress`, as `FuelService::prepare_genesis` calls it
+//! and logs one event per observable step (hook points included).  It asserts nothing.
+mod world;
+
+use fuel_core::{
+    chain_config::{
+        ChainConfig,
+        MAX_GROUP_SIZE,
+        SnapshotMetadata,
+        SnapshotReader,
+        SnapshotWriter,
+        ZstdCompressionLevel,
+    },
+    combined_database::CombinedDatabase,
+    database::{
+        database_description::{
+            off_chain::OffChain,
+            on_chain::OnChain,
+        },
+        genesis_progress::GenesisMetadata,
+    },
+    service::{
+        Config,
+        adapters::block_importer::NoopBlockReconciliationWriteAdapter,
+        genesis::{
+            Exporter,
+            clear_off_chain_genesis_progress,
+            execute_genesis_block,
+            verif::{
+                ImportPoint,
+                set_import_callback,
+            },
+        },
+    },
+    state::historical_rocksdb::StateRewindPolicy,
+};
+use fuel_core_importer::ports::{
+    MockBlockVerifier,
+    MockValidator,
+};
+use fuel_core_services::{
+    State,
+    StateWatcher,
+};
+use fuel_core_storage::{
+    StorageAsRef,
+    transactional::{
+        AtomicView,
+        Changes,
+    },
+};
+use fuel_core_types::services::block_importer::UncommittedResult;
+use h_common::{
+    Args,
+    StepExt,
+    Trace,
+    die,
+    guarded,
+    json,
+    read_walks,
+};
+use serde_json::{
+    Map,
+    Value,
+};
+use std::{
+    collections::HashMap,
+    sync::{
+        Arc,
+        Mutex,
+    },
+};
+use world::{
+    MIGRATIONS,
+    World,
+};
+
+/// One interruption to inject into a run.
+#[derive(Clone, Debug)]
+struct Directive {
+    kind: String, // "fail" | "cancel"
+    m: String,
+    i: i64,
+    pt: String,
+}
+
+/// Shared between the harness thread and the hook callback (which runs on the import thread(s)).
+struct Ctl {
+    directive: Option<Directive>,
+    fired: bool,
+    events: Vec<(String, Value)>,
+    sender: Option<tokio::sync::watch::Sender<State>>,
+    db: Option<CombinedDatabase>,
+}
+
+fn point_name(p: ImportPoint) -> &'static str {
+    match p {
+        ImportPoint::TaskStart => "task_start",
+        ImportPoint::GroupStart => "group_start",
+        ImportPoint::AfterProcess => "after_process",
+        ImportPoint::BeforeCommit => "before_commit",
+        ImportPoint::AfterCommit => "after_commit",
+    }
+}
+
+/// GenesisMetadata progress of one migration, -1 = no key.
+fn progress_of(db: &CombinedDatabase, m: &str, off: bool) -> i64 {
+    let r = if off {
+        db.off_chain()
+            .storage::<GenesisMetadata<OffChain>>()
+            .get(m)
+            .map(|v| v.map(|c| c.into_owned()))
+    } else {
+        db.on_chain()
+            .storage::<GenesisMetadata<OnChain>>()
+            .get(m)
+            .map(|v| v.map(|c| c.into_owned()))
+    };
+    match r {
+        Ok(Some(i)) => i as i64,
+        Ok(None) => -1,
+        Err(_) => -2,
+    }
+}
+
+fn is_off(m: &str) -> bool {
+    MIGRATIONS.iter().find(|x| x.0 == m).map(|x| x.2).unwrap_or(false)
+}
+
+fn all_progress(db: &CombinedDatabase) -> Value {
+    let mut o = Map::new();
+    for (m, _, off) in MIGRATIONS {
+        o.insert(m.to_string(), json!(progress_of(db, m, *off)));
+    }
+    Value::Object(o)
+}
+
+fn install_callback(ctl: Arc<Mutex<Ctl>>) {
+    set_import_callback(Some(Arc::new(move |point, m: &str, idx: usize| {
+        let mut c = ctl.lock().unwrap_or_else(|e| e.into_inner());
+        let pt = point_name(point);
+        let p = c.db.as_ref().map(|db| progress_of(db, m, is_off(m))).unwrap_or(-3);
+        match point {
+            ImportPoint::TaskStart => c.events.push(("Task".into(), json!({"m": m, "skip": idx, "p": p}))),
+            ImportPoint::GroupStart => c.events.push(("Start".into(), json!({"m": m, "i": idx, "p": p}))),
+            ImportPoint::AfterCommit => c.events.push(("Commit".into(), json!({"m": m, "i": idx, "p": p}))),
+            _ => {}
+        }
+        let hit = match (&c.directive, c.fired) {
+            (Some(d), false) => d.m == m && d.i == idx as i64 && d.pt == pt,
+            _ => false,
+        };
+        if hit {
+            c.fired = true;
+            let d = c.directive.clone().unwrap();
+            if d.kind == "cancel" {
+                if let Some(s) = &c.sender {
+                    let _ = s.send(State::Stopping);
+                }
+                c.events.push(("Cancel".into(), json!({"m": m, "i": idx, "pt": pt})));
+            } else {
+                c.events.push(("Fail".into(), json!({"m": m, "i": idx, "pt": pt, "p": p})));
+                return Err(anyhow::anyhow!("verif: injected failure at {pt} of group {idx} of {m}"));
+            }
+        }
+        Ok(())
+    })));
+}
+
+struct Snapshot {
+    _dir: tempfile::TempDir,
+    meta: SnapshotMetadata,
+    json_group: usize,
+}
+
+impl Snapshot {
+    fn reader(&self) -> SnapshotReader {
+        SnapshotReader::open_w_config(self.meta.clone(), self.json_group)
+            .unwrap_or_else(|e| die(&format!("open snapshot: {e}")))
+    }
+}
+
+fn runtime() -> tokio::runtime::Runtime {
+    tokio::runtime::Builder::new_current_thread().enable_all().build().unwrap()
+}
+
+/// Real exporter -> real files.
+fn export(world: &World, enc: &str, g: usize) -> Result<Snapshot, String> {
+    let dir = tempfile::tempdir().map_err(|e| e.to_string())?;
+    let path = dir.path().to_path_buf();
+    let group = if g == 0 { MAX_GROUP_SIZE } else { g };
+    let rt = runtime();
+    let db = world.src.clone();
+    let res: Result<anyhow::Result<()>, String> = guarded(|| {
+        rt.block_on(async {
+            match enc {
+                "json" => {
+                    let p = path.clone();
+                    // the CLI exports JSON with MAX_GROUP_SIZE; the group size of a JSON snapshot is
+                    // applied by the reader
+                    Exporter::new(
+                        db,
+                        ChainConfig::local_testnet(),
+                        move || Ok(SnapshotWriter::json(p.clone())),
+                        MAX_GROUP_SIZE,
+                        StateWatcher::default(),
+                    )
+                    .write_full_snapshot()
+                    .await
+                }
+                _ => {
+                    let p = path.clone();
+                    Exporter::new(
+                        db,
+                        ChainConfig::local_testnet(),
+                        move || SnapshotWriter::parquet(p.clone(), ZstdCompressionLevel::Level1),
+                        group,
+                        StateWatcher::default(),
+                    )
+                    .write_full_snapshot()
+                    .await
+                }
+            }
+        })
+    });
+    drop(rt);
+    match res {
+        Ok(Ok(())) => {}
+        Ok(Err(e)) => return Err(format!("Err:{e}")),
+        Err(p) => return Err(format!("Panic:{p}")),
+    }
+    let meta = SnapshotMetadata::read(&path).map_err(|e| format!("Err:{e}"))?;
+    Ok(Snapshot { _dir: dir, meta, json_group: group })
+}
+
+fn fresh_db(kind: &str) -> CombinedDatabase {
+    match kind {
+        "rocks" => CombinedDatabase::temp_database_with_state_rewind_policy(
+            StateRewindPolicy::NoRewind,
+            fuel_core::state::rocks_db::DatabaseConfig::config_for_tests(),
+        )
+        .unwrap_or_else(|e| die(&format!("rocksdb: {e}"))),
+        _ => CombinedDatabase::in_memory(),
+    }
+}
+
+type GenesisResult = UncommittedResult<Changes>;
+
+/// One call of the real `execute_genesis_block`; the hook callback produces the fine-grained events.
+fn run_once(
+    ctl: &Arc<Mutex<Ctl>>,
+    cfg: &Config,
+    db: &CombinedDatabase,
+    directive: Option<Directive>,
+) -> (Vec<(String, Value)>, Result<GenesisResult, String>) {
+    let (tx, rx) = tokio::sync::watch::channel(State::Started);
+    let cancel_at_begin = matches!(&directive, Some(d) if d.kind == "cancel" && d.pt == "begin");
+    {
+        let mut c = ctl.lock().unwrap();
+        c.events.clear();
+        c.fired = cancel_at_begin;
+        c.directive = directive;
+        c.db = Some(db.clone());
+        c.events.push(("Begin".into(), json!({})));
+        if cancel_at_begin {
+            let _ = tx.send(State::Stopping);
+            c.events.push(("Cancel".into(), json!({"m": "", "i": -1, "pt": "begin"})));
+        }
+        c.sender = Some(tx);
+    }
+    let watcher: StateWatcher = rx.into();
+    let rt = runtime();
+    let res = guarded(|| rt.block_on(execute_genesis_block(watcher, cfg, db)));
+    // The process "dies" here: workers still running on blocking threads see Stopping at their next
+    // group boundary; dropping the runtime joins them, so every commit is logged before End.
+    if let Some(s) = &ctl.lock().unwrap().sender {
+        if res.as_ref().map(|r| r.is_err()).unwrap_or(true) {
+            let _ = s.send(State::Stopping);
+        }
+    }
+    drop(rt);
+    let mut c = ctl.lock().unwrap();
+    c.sender = None;
+    c.directive = None;
+    let evs = std::mem::take(&mut c.events);
+    let r = match res {
+        Ok(Ok(r)) => Ok(r),
+        Ok(Err(e)) => {
+            let s = format!("{e:#}");
+            if s.contains("Import cancelled") {
+                Err("Err:cancelled".to_string())
+            } else if s.contains("verif: injected failure") {
+                Err("Err:failed".to_string())
+            } else {
+                Err(format!("Err:other:{}", s.chars().take(160).collect::<String>()))
+            }
+        }
+        Err(p) => Err(format!("Panic:{}", p.chars().take(160).collect::<String>())),
+    };
+    (evs, r)
+}
+
+fn commit_block(cfg: &Config, db: &CombinedDatabase, result: GenesisResult) -> String {
+    let rt = runtime();
+    let r = guarded(|| {
+        rt.block_on(async {
+            let importer = fuel_core_importer::Importer::new(
+                cfg.snapshot_reader.chain_config().consensus_parameters.chain_id(),
+                cfg.block_importer.clone(),
+                db.on_chain().clone(),
+                MockValidator::default(),
+                MockBlockVerifier::default(),
+                NoopBlockReconciliationWriteAdapter,
+            );
+            importer.commit_result(result).await
+        })
+    });
+    drop(rt);
+    match r {
+        Ok(Ok(())) => "Ok".into(),
+        Ok(Err(e)) => format!("Err:{}", format!("{e:?}").chars().take(160).collect::<String>()),
+        Err(p) => format!("Panic:{}", p.chars().take(160).collect::<String>()),
+    }
+}
+
+fn clear_off_chain(db: &CombinedDatabase) -> String {
+    match guarded(|| clear_off_chain_genesis_progress(db)) {
+        Ok(Ok(())) => "Ok".into(),
+        Ok(Err(e)) => format!("Err:{}", format!("{e:?}").chars().take(160).collect::<String>()),
+        Err(p) => format!("Panic:{}", p.chars().take(160).collect::<String>()),
+    }
+}
+
+fn height_of(db: &CombinedDatabase) -> i64 {
+    db.on_chain()
+        .latest_view()
+        .ok()
+        .and_then(|v| v.latest_height().ok())
+        .map(|h| u32::from(h) as i64)
+        .unwrap_or(-1)
+}
+
+/// Interns digests to small integers (per process; equal bytes <=> equal id).
+#[derive(Default)]
+struct Interner(HashMap<u64, i64>);
+impl Interner {
+    fn id(&mut self, h: u64) -> i64 {
+        let n = self.0.len() as i64 + 1;
+        *self.0.entry(h).or_insert(n)
+    }
+    fn map(&mut self, d: Vec<(String, u64)>) -> Value {
+        let mut o = Map::new();
+        for (k, h) in d {
+            o.insert(k, json!(self.id(h)));
+        }
+        Value::Object(o)
+    }
+}
+
+struct RefResult {
+    res: String,
+    tabs: Value,
+    dig: Value,
+    h: i64,
+}
+
+struct Session {
+    world: Arc<World>,
+    snap: Arc<Snapshot>,
+    dbkind: String,
+    cfg: Config,
+    db: CombinedDatabase,
+    pending: Option<GenesisResult>,
+}
+
+fn directive_of(step: &Map<String, Value>) -> Option<Directive> {
+    let kind = step.get("kind").and_then(|v| v.as_str()).unwrap_or("none");
+    if kind == "none" {
+        return None;
+    }
+    Some(Directive {
+        kind: kind.to_string(),
+        m: step.get("m").and_then(|v| v.as_str()).unwrap_or("").to_string(),
+        i: step.get("i").and_then(|v| v.as_i64()).unwrap_or(-1),
+        pt: step.get("pt").and_then(|v| v.as_str()).unwrap_or("").to_string(),
+    })
+}
+
+fn main() {
+    let args = Args::parse();
+    let seed = h_common::env_seed();
+    match args.mode.as_str() {
+        "shape" => {
+            // sizes of the snapshot tables of a shape (for the TLC crash-point enumeration)
+            let shape: Value = serde_json::from_str(args.req("shape")).unwrap_or_else(|e| die(&format!("shape: {e}")));
+            let w = World::build(&shape, seed);
+            println!("{}", json!({"n": w.sizes(), "h": w.height}));
+        }
+        "run" => run(&args, seed),
+        _ => die("modes: run --walks W --out T | shape --shape JSON"),
+    }
+}
+
+fn run(args: &Args, seed: u64) {
+    let walks = read_walks(args.req("walks"));
+    let mut t = Trace::create(args.req("out"));
+    let ctl = Arc::new(Mutex::new(Ctl { directive: None, fired: false, events: vec![], sender: None, db: None }));
+    install_callback(ctl.clone());
+    let mut worlds: HashMap<String, Arc<World>> = HashMap::new();
+    let mut snaps: HashMap<String, Arc<Snapshot>> = HashMap::new();
+    let mut refs: HashMap<String, Arc<RefResult>> = HashMap::new();
+    let mut interner = Interner::default();
+
+    for walk in walks {
+        t.reset(walk.id, json!({}));
+        let mut sess: Option<Session> = None;
+        for step in &walk.steps {
+            match step.name() {
+                "Export" => {
+                    let shape = step.get("shape").cloned().unwrap_or_else(|| die("Export without shape"));
+                    let enc = step.str_("enc").to_string();
+                    let g = step.int("g") as usize;
+                    let dbkind = step.get("db").and_then(|v| v.as_str()).unwrap_or("mem").to_string();
+                    let wkey = shape.to_string();
+                    let world = worlds.entry(wkey.clone()).or_insert_with(|| Arc::new(World::build(&shape, seed))).clone();
+                    let skey = format!("{wkey}|{enc}|{g}");
+                    let snap = match snaps.get(&skey) {
+                        Some(s) => Ok(s.clone()),
+                        None => export(&world, &enc, g).map(|s| {
+                            let s = Arc::new(s);
+                            snaps.insert(skey.clone(), s.clone());
+                            s
+                        }),
+                    };
+                    match snap {
+                        Ok(snap) => {
+                            let reader = snap.reader();
+                            let groups = world.snapshot_groups(&reader);
+                            let snap_h = reader.last_block_config().map(|b| u32::from(b.block_height) as i64).unwrap_or(-1);
+                            t.event("Export", json!({"enc": enc, "g": g, "res": "Ok", "n": world.sizes(), "h": world.height,
+                                                    "snap": groups, "snapH": snap_h, "db": dbkind}));
+                            let cfg = Config::local_node_with_reader(reader);
+                            sess = Some(Session { world, snap, dbkind: dbkind.clone(), cfg, db: fresh_db(&dbkind), pending: None });
+                        }
+                        Err(e) => {
+                            t.event("Export", json!({"enc": enc, "g": g, "res": e, "n": world.sizes(), "h": world.height,
+                                                    "snap": {}, "snapH": -1, "db": dbkind}));
+                        }
+                    }
+                }
+                "Reference" => {
+                    let Some(s) = sess.as_ref() else { continue };
+                    let key = format!("{:p}|{}", Arc::as_ptr(&s.snap), s.dbkind);
+                    let r = match refs.get(&key) {
+                        Some(r) => r.clone(),
+                        None => {
+                            let db = fresh_db(&s.dbkind);
+                            let (_evs, res) = run_once(&ctl, &s.cfg, &db, None);
+                            let r = match res {
+                                Ok(result) => {
+                                    let tabs = s.world.dest_tables(&db);
+                                    let mut c = commit_block(&s.cfg, &db, result);
+                                    if c == "Ok" {
+                                        c = clear_off_chain(&db);
+                                    }
+                                    RefResult { res: c, tabs, dig: interner.map(world::digests(&db)), h: height_of(&db) }
+                                }
+                                Err(e) => RefResult { res: e, tabs: json!({}), dig: json!({}), h: -1 },
+                            };
+                            let r = Arc::new(r);
+                            refs.insert(key, r.clone());
+                            r
+                        }
+                    };
+                    t.event("Reference", json!({"res": r.res, "tabs": r.tabs, "dig": r.dig, "h": r.h}));
+                }
+                "Run" => {
+                    let Some(s) = sess.as_mut() else { continue };
+                    if s.pending.is_some() {
+                        // the import already completed (an interruption of the plan did not occur any more):
+                        // a node does not run it again, it commits the result
+                        continue;
+                    }
+                    // `tries` > 1: an operator restarting an uninterrupted import until it completes
+                    let mut tries = step.get("tries").and_then(|v| v.as_i64()).unwrap_or(1);
+                    loop {
+                        tries -= 1;
+                        let (evs, res) = run_once(&ctl, &s.cfg, &s.db, directive_of(step));
+                        for (ev, fields) in evs {
+                            t.event(&ev, fields);
+                        }
+                        let (res_s, pending) = match res {
+                            Ok(r) => ("Ok".to_string(), Some(r)),
+                            Err(e) => (e, None),
+                        };
+                        s.pending = pending;
+                        t.event("End", json!({"res": res_s, "prog": all_progress(&s.db), "tabs": s.world.dest_tables(&s.db)}));
+                        if s.pending.is_some() || tries <= 0 {
+                            break;
+                        }
+                    }
+                }
+                "CommitBlock" => {
+                    let Some(s) = sess.as_mut() else { continue };
+                    let Some(result) = s.pending.take() else {
+                        // the import never completed: nothing to commit
+                        t.event("GaveUp", json!({"prog": all_progress(&s.db)}));
+                        continue;
+                    };
+                    let res = commit_block(&s.cfg, &s.db, result);
+                    t.event("CommitBlock", json!({"res": res, "prog": all_progress(&s.db), "h": height_of(&s.db)}));
+                }
+                "ClearOffChain" => {
+                    // what FuelService::prepare_genesis does after the genesis block is committed
+                    let Some(s) = sess.as_mut() else { continue };
+                    if height_of(&s.db) < 0 {
+                        continue;
+                    }
+                    let res = clear_off_chain(&s.db);
+                    t.event("ClearOffChain", json!({"res": res, "prog": all_progress(&s.db),
+                                                   "dig": interner.map(world::digests(&s.db))}));
+                }
+                "DropResult" => {
+                    let Some(s) = sess.as_mut() else { continue };
+                    if s.pending.take().is_some() {
+                        t.event("DropResult", json!({"prog": all_progress(&s.db)}));
+                    }
+                }
+                other => die(&format!("unknown action {other}")),
+            }
+        }
+    }
+    set_import_callback(None);
+    t.finish();
+}
